@@ -497,6 +497,26 @@ func fileHostile(path string, data []byte) (res decodeResult) {
 			db.FetchFromArchive(a, now-50, now-50, now)
 		}
 		for a := 0; a < k; a++ {
+			// windows around the interval held in the archive's first slot and around the retention edge
+			ai := db.ArchiveInfoList()[a]
+			step := uint32(ai.SecondsPerPoint())
+			if raw, err := db.GetAllRawUnsortedPoints(a); err == nil && len(raw) > 0 && step > 0 && step < 1<<20 {
+				t0 := uint32(raw[0].Time)
+				for d1 := -3; d1 <= 3; d1++ {
+					for d2 := 0; d2 <= 4; d2++ {
+						from := t0 + uint32(int32(d1))*step - 1
+						until := from + uint32(d2)*step + 1
+						for _, nw := range []wt.Timestamp{now, wt.Timestamp(until + step), wt.Timestamp(t0 + uint32(ai.NumberOfPoints())*step/2)} {
+							ts, err := db.FetchFromArchive(a, wt.Timestamp(from), wt.Timestamp(until), nw)
+							if err == nil && ts != nil {
+								_ = ts.Points()
+							}
+						}
+					}
+				}
+			}
+		}
+		for a := 0; a < k; a++ {
 			db.GetAllRawUnsortedPoints(a)
 			db.UpdatePointForArchive(a, now-1, 1, now)
 			db.UpdatePointsForArchive([]wt.Point{{Time: now - 3, Value: 2}, {Time: now, Value: 3}}, a, now)
@@ -638,7 +658,33 @@ func runHostile(args []string) int {
 		valid := validFileBytes(rnd)
 		data := append([]byte{}, valid...)
 		what := ""
-		switch rnd.Intn(6) {
+		switch rnd.Intn(8) {
+		case 6: // the interval held in an archive's first slot is not a multiple of the step / is far away
+			k := int(binary.BigEndian.Uint32(data[12:]))
+			a := rnd.Intn(k)
+			off := int(binary.BigEndian.Uint32(data[16+12*a:]))
+			step := binary.BigEndian.Uint32(data[20+12*a:])
+			t := binary.BigEndian.Uint32(data[off:])
+			switch rnd.Intn(3) {
+			case 0:
+				t += step/2 + 1
+			case 1:
+				t = uint32(rnd.Uint32())
+			default:
+				t += 1
+			}
+			binary.BigEndian.PutUint32(data[off:], t)
+			what = "first slot interval misaligned"
+		case 7: // arbitrary slot records
+			h := 16 + 12*int(binary.BigEndian.Uint32(data[12:]))
+			for j := 0; j < 1+rnd.Intn(6); j++ {
+				p := h + 12*rnd.Intn((len(data)-h)/12)
+				binary.BigEndian.PutUint32(data[p:], rnd.Uint32())
+				if rnd.Intn(2) == 0 {
+					binary.BigEndian.PutUint64(data[p+4:], rnd.Uint64())
+				}
+			}
+			what = "slot records garbage"
 		case 0: // truncation
 			data = data[:rnd.Intn(len(data))]
 			what = "truncated"
